@@ -929,34 +929,6 @@ theorem runTempIndexRangeG_none (r : KRange) (i : Int) : runTempIndexRangeG Fx.n
   simp only [Fx.none, Bool.false_eq_true, ite_false]
   rfl
 
-/-- fix-5: the range arm of `run_temp_index` is total as well -/
-theorem runTempIndexRange_fixed_total (fx : Fx) (hf : fx.range = true) (r : KRange) (index : Int) :
-    runTempIndexRangeG fx r index ≠ .panic := by
-  unfold runTempIndexRangeG
-  simp only [hf, ite_true]
-  split
-  · cases r.stop with
-    | none => simp
-    | some p =>
-      obtain ⟨e, incl⟩ := p
-      simp only
-      cases incl <;> simp only [Bool.false_eq_true, ite_false, ite_true, bind_ok]
-      · cases hc : rangeContainsG fx r (wrap64 (e + index)) with
-        | panic => exact absurd hc (rangeContains_fixed_total fx hf r _)
-        | err => simp
-        | ok c => simp
-      · cases hc : rangeContainsG fx r (wrap64 (min (e + 1) I64_MAX + index)) with
-        | panic => exact absurd hc (rangeContains_fixed_total fx hf r _)
-        | err => simp
-        | ok c => simp
-  · cases r.start with
-    | none => simp
-    | some s =>
-      simp only [bind_ok]
-      cases hc : rangeContainsG fx r (wrap64 (s + index)) with
-      | panic => exact absurd hc (rangeContains_fixed_total fx hf r _)
-      | err => simp
-      | ok c => simp
 theorem sizeHintG_none (c : Cursor) : sizeHintG Fx.none c = sizeHint c := rfl
 theorem absIntG_none (a : Int) : absIntG Fx.none a = absInt a := rfl
 theorem rangeExpandedG_none (s e n : Int) : rangeExpandedG Fx.none s e n = rangeExpanded s e n := rfl
@@ -991,6 +963,34 @@ theorem rangeContains_fixed_total (fx : Fx) (hf : fx.range = true) (r : KRange) 
   obtain ⟨s, e, hok, _⟩ := asBoundedRange_fixed_total fx hf r
   unfold rangeContainsG; rw [hok]; simp
 
+/-- fix-5: the range arm of `run_temp_index` is total as well -/
+theorem runTempIndexRange_fixed_total (fx : Fx) (hf : fx.range = true) (r : KRange) (index : Int) :
+    runTempIndexRangeG fx r index ≠ .panic := by
+  unfold runTempIndexRangeG
+  simp only [hf, ite_true]
+  split
+  · cases r.stop with
+    | none => simp
+    | some p =>
+      obtain ⟨e, incl⟩ := p
+      simp only
+      cases incl <;> simp only [Bool.false_eq_true, ite_false, ite_true, bind_ok]
+      · cases hc : rangeContainsG fx r (wrap64 (e + index)) with
+        | panic => exact absurd hc (rangeContains_fixed_total fx hf r _)
+        | err => simp
+        | ok c => simp
+      · cases hc : rangeContainsG fx r (wrap64 (min (e + 1) I64_MAX + index)) with
+        | panic => exact absurd hc (rangeContains_fixed_total fx hf r _)
+        | err => simp
+        | ok c => simp
+  · cases r.start with
+    | none => simp
+    | some s =>
+      simp only [bind_ok]
+      cases hc : rangeContainsG fx r (wrap64 (s + index)) with
+      | panic => exact absurd hc (rangeContains_fixed_total fx hf r _)
+      | err => simp
+      | ok c => simp
 theorem rangeIntersection_fixed_total (fx : Fx) (hf : fx.range = true) (a b : KRange) :
     rangeIntersectionG fx a b ≠ .panic := by
   obtain ⟨s1, e1, hok1, _⟩ := asBoundedRange_fixed_total fx hf a
